@@ -23,8 +23,8 @@ ASSUMPTIONS = COMMON_ASSUMPTIONS + [
 TRUSTED_BASE = TRUSTED + ["clang 14 JSON AST dump (C++ helper and template)"]
 
 
-def native(shape, seed, k_edit=3.0, nis_target=None):
-    res = kalman.native_update((shape[0], shape[1], shape[3] if len(shape) > 3 else shape[2]), seed, k_edit=k_edit, nis_target=nis_target)
+def native(shape, seed, k_edit=3.0, nis_target=None, container="set"):
+    res = kalman.native_update((shape[0], shape[1], shape[3] if len(shape) > 3 else shape[2]), seed, k_edit=k_edit, nis_target=nis_target, container=container)
     return res[0], res[1]
 
 
@@ -65,12 +65,12 @@ def check(run):
     cs = pyekf.filter_callees()
     for c in (pyekf.RemoveInnovation(True), pyekf.RemoveInnovation(False)):
         rep = run.verify(c, cs)
-        triage_generic(run, rep, lambda shape, seed: native([max(shape[0], 1), shape[1], shape[2], shape[3]], seed), "remove_innovation", extra_native=[battery])
+        triage_generic(run, rep, lambda shape, seed, container="set": native([max(shape[0], 1), shape[1], shape[2], shape[3]], seed, container=container), "remove_innovation", extra_native=[battery])
     for c in (pyekf.SensorUpdate(True), pyekf.SensorUpdate(False)):
         rep = run.verify(c, cs)
         # only the decision / discard clauses belong to this property; the update algebra is reported by C05
         rep.obligations = [ob for ob in rep.obligations if ob.name.startswith("C06.") or ".records_innovation" in ob.name or ".frame." in ob.name or ".no_exception" in ob.name]
-        triage_generic(run, rep, lambda shape, seed: native([max(shape[0], 1), shape[1], shape[2], shape[3]], seed), "sensor_model", extra_native=[discard_scenario, battery])
+        triage_generic(run, rep, lambda shape, seed, container="set": native([max(shape[0], 1), shape[1], shape[2], shape[3]], seed, container=container), "sensor_model", extra_native=[discard_scenario, battery])
     try:
         from checks import cxx_innovation
 
